@@ -12,7 +12,7 @@ from vlib import VERIF, Evidence, Reporter, run_tlc, write_cfg, scratch, SEED, s
 
 PID = "C15"
 BUFSZ = 262144
-CODECS = ["gzip", "xz", "bzip2", "zstd"]
+CODECS = ["gzip", "xz", "bzip2"] + (["zstd"] if vlib.have("zstd") else [])      # the zstd reference is the command line tool
 
 
 def ref_compress(codec, data, level=None):
